@@ -132,7 +132,12 @@ class DynConfMonitor(Monitor):
 
     def on_event(self, ev):
         kind = ev['k']
-        if kind == 'rpc_fault' and ev.get('src') == 'user' and ev['method'] in self.DOCUMENTED:
+        if kind == 'rpc_call' and ev.get('src') == 'user' and ev['method'] == 'supvisors.update_numprocs':
+            # the true process states of the target when the request arrives (the fault is reported after the callee has
+            # run the rest of its loop iteration, during which processes may have stopped and been removed)
+            inst = self.run.world.instances.get(ev['dst'])
+            self.at_call = dict(inst.running_truth()) if inst is not None else {}
+        elif kind == 'rpc_fault' and ev.get('src') == 'user' and ev['method'] in self.DOCUMENTED:
             self.judge(ev['method'], ev['args'], ev['code'], ev['text'], ev['dst'], ev['t'])
         elif kind == 'rpc_ret' and ev.get('src') == 'user' and ev['method'] in self.DOCUMENTED:
             self.count('configuration_requests_answered')
@@ -178,7 +183,8 @@ class DynConfMonitor(Monitor):
                 if truthful:
                     self.count('failed_answers_that_are_true')
                     return
-                if names and all(truth.get(n) == 40 for n in names):
+                at_call = getattr(self, 'at_call', {})
+                if names and all(truth.get(n) == 40 or at_call.get(n) == 40 for n in names):
                     mech = ':process-already-stopping-when-the-decrease-is-requested-without-wait'
             self.violate(f"C16/undocumented-fault:{method.split('.')[1]}:{code}{mech}",
                          f'{method}{args} on {nick} at vt={t - BASE_TIME:.3f} answered the fault {code} ({text}), which '
